@@ -259,6 +259,14 @@ func c01Scenario(r *vf.Run, t *testing.T, id string, rng *rand.Rand, g genOpts, 
 }
 
 func c01Outcome(r *vf.Run, id string, res rt.CaseResult, triggers []string, replay any, rulePrefix string) {
+	if rej := rt.TakeRejected(); len(rej) > 0 {
+		if rulePrefix == "C14" || rulePrefix == "C18" {
+			// an increment of 0, or a frame no conforming reader accepts, is part of what these properties forbid
+			r.Fail(rulePrefix+".frame-rejected-by-independent-reader", id, strings.Join(rej, "\n"), triggers, replay)
+		} else {
+			r.Inc("frames_of_the_library_rejected_by_the_independent_reader", int64(len(rej)))
+		}
+	}
 	switch {
 	case res.TimedOut:
 		r.Inconclusive("real-time watchdog expired inside a bubble")
